@@ -145,7 +145,7 @@ func vC17Readdir(maxN int, lens []int, maxReads int) {
 }
 
 func VerifC17_ReaddirQuick()    { vC17Readdir(2, []int{0, 2}, 4) }
-func VerifC17_ReaddirThorough() { vC17Readdir(3, []int{0, 1, 3}, 5) }
+func VerifC17_ReaddirThorough() { vC17Readdir(2, []int{0, 1, 3}, 5) }
 
 // iterator error at an explored call: the data delivered is still a prefix of
 // the listing made of whole entries, and the error is reported.
@@ -270,4 +270,4 @@ func vC17Client(maxN int, lens []int) {
 }
 
 func VerifC17_ClientQuick()    { vC17Client(2, []int{0, 2}) }
-func VerifC17_ClientThorough() { vC17Client(3, []int{0, 1, 3}) }
+func VerifC17_ClientThorough() { vC17Client(2, []int{0, 1, 3}) }
